@@ -361,7 +361,19 @@ impl Builder<'_> {
         }
         let path = self.sched.pick(&paths).clone();
         let text = self.effective(&path).cloned().unwrap_or_default();
-        let pos = random_pos(&text, self.sw, self.sched);
+        let mut pos = random_pos(&text, self.sw, self.sched);
+        if self.sched.chance(3, 5) && !text.is_empty() {
+            // aim at a word: scan from a random offset to the next ASCII letter that starts one
+            let b = text.as_bytes();
+            let start = self.sched.below(b.len());
+            for k in 0..b.len() {
+                let i = (start + k) % b.len();
+                if b[i].is_ascii_alphabetic() && (i == 0 || !(b[i - 1].is_ascii_alphanumeric() || b[i - 1] == b'_' || b[i - 1] == b'\'' || b[i - 1] == b'@')) {
+                    pos = position::to_pos(&text, i + if i + 1 < b.len() && b[i + 1].is_ascii_alphanumeric() { self.sched.below(2) } else { 0 });
+                    break;
+                }
+            }
+        }
         let kind = *self.sched.pick(&[ReqKind::Definition, ReqKind::References, ReqKind::PrepareRename, ReqKind::Rename]);
         let new_name = if kind == ReqKind::Rename { Some(format!("fresh_{}", self.sched.below(100))) } else { None };
         if self.sw.rename_loops && kind == ReqKind::Rename && self.sched.chance(1, 2) {
